@@ -256,6 +256,45 @@ def _untransformed(pt, k, rank):
     return full
 
 
+class H6(Case):
+    """compute_caps(): cap_k = contraction of the TRANSFORMED MPO tensor of step k (as returned by
+    get_mpo_tensor, verified in H5) with the normalised trace vector on its input leg AND on its
+    output leg and with cap_{k+1}; cap_N = 1.  (Physical meaning: the later part of the environment
+    is traced out after feeding it the maximally mixed state.)  Rank-3 tensors are checked without
+    transforms only: for rank-3 tensors WITH non-unitary transforms SimpleProcessTensor.compute_caps
+    (trace_square, transforms ignored) and FileProcessTensor.compute_caps differ and the property does
+    not say which is meant -- not demanded (with the unitary transforms PT-TEMPO produces they agree;
+    that case is covered by C05/H1 and C16/H2)."""
+    functions = ("SimpleProcessTensor.compute_caps", "SimpleProcessTensor.get_mpo_tensor", "BaseProcessTensor.__init__")
+    env = {}
+
+    def __init__(self, rank, transforms, N=2, d=2):
+        self.rank, self.transforms, self.N, self.d = rank, transforms, N, d
+        self.id = "H6/compute_caps_r%d_%s_N%d_d%d" % (rank, transforms if transforms else "notr", N, d)
+        self.bounds = {"d": d, "rank": rank, "transforms": transforms, "N": N, "bond": 2}
+        self.timeout_s = 300
+
+    def run(self, inp):
+        d, N = self.d, self.N
+        D = d * d
+        pt, Meff, _ = build_pt(inp, "e", d, N, 2, self.rank, self.transforms)
+        pt.compute_caps()
+        tr = (np.identity(d) / np.sqrt(float(d))).reshape(D)
+        if inp.mode != "real":
+            tr = inp.const(tr)
+        caps = [None] * (N + 1)
+        caps[N] = inp.const(np.array([1.0]))
+        for k in reversed(range(N)):
+            M = Meff[k]
+            t = np.tensordot(M, tr, axes=([3], [0]))          # a b in
+            t = np.tensordot(t, tr, axes=([2], [0]))          # a b
+            caps[k] = np.tensordot(t, caps[k + 1], axes=([1], [0]))
+        obs = [Ob.holds("N+1 caps", len(pt._cap_tensors) == N + 1)]
+        for k in range(N + 1):
+            obs.append(Ob.eq("cap %d" % k, pt.get_cap_tensor(k), caps[k]))
+        return obs
+
+
 class H4(Case):
     """vec(A rho B) = (A (x) B^T) vec(rho) conventions"""
     functions = ("operators.commutator", "operators.acommutator", "operators.left_super", "operators.right_super",
@@ -291,7 +330,7 @@ def cases(tier):
            H1(3, 2, 1, 4, False, "none"), H1(1, 3, 2, 4, False, "none", num_steps=2),
            H1(2, 2, 2, 4, False, "stack"), H1(1, 3, 2, 3, True, "ends", num_steps=1),
            H1(1, 2, 2, 4, "out", "none"), H1(1, 2, 2, 3, "in", "none"), H1(2, 2, 1, 4, "out", "prepost")]
-    cs += [H2(2, 2, 2), H4(2), H4(3), H5(3), H5(4)]
+    cs += [H2(2, 2, 2), H4(2), H4(3), H5(3), H5(4), H6(4, False), H6(4, "in"), H6(4, "out"), H6(4, True), H6(3, False, N=3)]
     cs += [H3(2, None), H3(3, 1)]
     if tier == "thorough":
         cs += [H1(1, 3, 2, 4, True, "stack"), H1(2, 3, 2, 4, False, "prepost"), H1(3, 2, 2, 4, False, "ends"),
